@@ -68,7 +68,7 @@ func (S) Info() scen.Info {
 			"reference model":      "write-once map (direct interval rule + porcupine v1.3.0 nondeterministic model, partitioned by key)",
 		},
 		QuickUnits: 60000, ThoroughUnits: 3000000, QuickSecs: 240, ThoroughSecs: 1200,
-		ProbeKeys: []string{"probe.fallback_putstream", "probe.fallback_getstream", "probe.fallback_peek", "probe.fallback_putvec", "probe.buffer_scribbled", "probe.key_with_nul", "probe.key_with_slash", "probe.key_dotdot", "probe.key_empty", "probe.concurrent_put_read", "probe.failed_put", "probe.porcupine_checked", "probe.empty_content", "probe.via_linksystem_openers", "probe.putvec_same_vector_twice"},
+		ProbeKeys: []string{"probe.fallback_putstream", "probe.fallback_getstream", "probe.fallback_peek", "probe.fallback_putvec", "probe.buffer_scribbled", "probe.key_with_nul", "probe.key_with_slash", "probe.key_dotdot", "probe.key_empty", "probe.concurrent_put_read", "probe.failed_put", "probe.porcupine_checked", "probe.empty_content", "probe.via_linksystem_openers", "probe.putvec_same_vector_twice", "probe.get_result_scribbled"},
 		EventsKey: "events",
 	}
 }
@@ -670,7 +670,11 @@ func (w *world) do(client, kind, k int, pieces []int, end, chunk int, scribble b
 		h.ok = err == nil
 		if err == nil {
 			w.checkBytes(&h, b, content)
-			if len(w.kept) < 32 {
+			if scribble {
+				// what Get returns is the caller's own copy: writing into it must not reach the store
+				scrib(b)
+				w.st.Inc("probe.get_result_scribbled")
+			} else if len(w.kept) < 32 {
 				w.kept = append(w.kept, keptGet{b, sim.HashString(string(b)), k})
 			}
 		} else {
